@@ -121,6 +121,10 @@ def scenarios(run):
         add(c, sched=Q.random_sched(rng, rng.randrange(0, 25), letters="SSSSRRRWVVVCTX" if rng.random() < 0.2 else "SSSSRRRWVVVCT"),
             break_at=(rng.randrange(0, 400) if rng.random() < 0.3 else -1), compression=rng.choice(Q.COMPRESSIONS),
             rev=rng.choice(Q.REVS))
+    # a connection whose Close reports an error although it closes (as TLS does when the peer is gone): every fifth scenario
+    for i, sc in enumerate(out):
+        if i % 5 == 3:
+            sc["closeErr"] = True
     return out
 
 
